@@ -74,18 +74,18 @@ def writer_dtype(cfg):
 
 
 def open_py_writer(cfg, chdir):
-    """Construct the Python writer.  Bits of the salt choose among calling conventions that are documented to be equivalent:
-    bit 3: marching_periods (progress dots on stdout); bit 4: every argument positional, in the documented order, instead
-    of keywords; bits 5-6 (complex dtypes only): is_complex given as True / left at its default / given as False - for a
+    """Construct the Python writer.  cfg["callconv"] chooses among calling conventions that are documented to be equivalent:
+    bit 0: marching_periods (progress dots on stdout); bit 1: every argument positional, in the documented order, instead
+    of keywords; bits 2-3 (complex dtypes only): is_complex given as True / left at its default / given as False - for a
     complex or ('r','i') dtype the option is documented to be ignored."""
     dt, is_c = writer_dtype(cfg)
-    salt = cfg.get("salt", 0)
-    marching = bool((salt >> 3) & 1)
+    cc = cfg.get("callconv", 0)
+    marching = bool(cc & 1)
     complex_dtype = getattr(dt, "names", None) is not None or dt.kind == "c"
-    isc_mode = (salt >> 5) & 3 if complex_dtype else 0
+    isc_mode = (cc >> 2) & 3 if complex_dtype else 0
     is_complex_arg = is_c if isc_mode in (0, 1) else False
     W = drf().DigitalRFWriter
-    if (salt >> 4) & 1 and isc_mode != 1:
+    if (cc >> 1) & 1 and isc_mode != 1:
         return W(chdir, dt, cfg["S"], cfg["F"], cfg["start"], cfg["n"], cfg["d"], cfg.get("uuid", "verif"), cfg["comp"],
                  bool(cfg["checksum"]), is_complex_arg, cfg["nsub"], bool(cfg["cont"]), marching)
     kw = dict(uuid_str=cfg.get("uuid", "verif"), compression_level=cfg["comp"], checksum=bool(cfg["checksum"]),
